@@ -25,9 +25,30 @@ func newBody() *Body {
 }
 
 func (b *Body) appendItem(c nodeContent) *node {
+	b.ensureTrailingNewline()
 	nn := b.children.Append(c)
 	b.items.Add(nn)
 	return nn
+}
+
+// ensureTrailingNewline makes sure that whatever the body already contains is
+// terminated by a newline, so that an item appended after it starts on a line
+// of its own. The last item of a body parsed from source has no newline of
+// its own if it was directly followed by the end of the file (possibly after a
+// trailing comment).
+func (b *Body) ensureTrailingNewline() {
+	toks := b.children.BuildTokens(nil)
+	if len(toks) == 0 {
+		return
+	}
+	last := toks[len(toks)-1]
+	switch {
+	case last.Type == hclsyntax.TokenNewline:
+		return
+	case last.Type == hclsyntax.TokenComment && len(last.Bytes) > 0 && last.Bytes[len(last.Bytes)-1] == '\n':
+		return
+	}
+	b.AppendNewline()
 }
 
 func (b *Body) appendItemNode(nn *node) *node {
